@@ -60,7 +60,24 @@ pub fn strategy(max_horizon_s: u16) -> impl Strategy<Value = Case> {
         2 => flapping(max_horizon_s.max(170)),
         1 => total_outage(),
         1 => refusing_receiver(),
+        1 => cold_start(),
     ]
+}
+
+/// The receiver is unreachable on every link from the very start (the start-up grace is spent before anything
+/// answers); then the paths come back, but the first link goes dark again shortly afterwards and stays dark while
+/// the others are healthy: the session must still get established through them.
+fn cold_start() -> impl Strategy<Value = Case> {
+    (strategy_h(80, false), 60u16..130, 1u16..30, 300u16..600).prop_map(|(mut c, dark, gap, again)| {
+        c.faults.clear();
+        c.forgets.clear();
+        for l in 0..c.n_links {
+            c.faults.push(Fault { link: l, start_ds: 0, dur_ds: dark, kind: 0 });
+        }
+        c.faults.push(Fault { link: 0, start_ds: dark + gap, dur_ds: again, kind: 0 });
+        c.horizon_s = (dark + gap) / 10 + 60;
+        c
+    })
 }
 
 /// The receiver forgets the group early and refuses every REG2 with REG_ERR for the rest of a 60-90 s run (no other
@@ -537,8 +554,10 @@ pub fn check(case: &Case, obs: &mut Obs, which: Which, ctx: &Ctx) -> CheckResult
             // the receiver answers REG_NGP (it has no group, or another one): the sender has to create a new group.
             // Bound: detection (timeout) + 30 s, counted from the last forget event / the end of every link's faults.
             if which == Which::C08 && !ids_equal && !rx.refusing() && forget_events.is_empty() {
-                let since = last_forget.max((0..n).map(&clear_after).max().unwrap_or(t0));
-                let undisturbed = break_events.is_empty() && broken.iter().all(|b| !*b) && now >= since;
+                // one link whose path delivers (no fault on it any more, no send error) is enough to create a group
+                let best = (0..n).filter(|i| !broken[*i] && break_events.iter().all(|(_, l)| l != i)).min_by_key(|i| clear_after(*i));
+                let since = last_forget.max(best.map(&clear_after).unwrap_or(u64::MAX));
+                let undisturbed = best.is_some() && now >= since;
                 let bound = timeout + 30_000 + 2 * max_hk_gap;
                 if undisturbed && now - since > bound {
                     return crate::rt::viol(
